@@ -238,11 +238,11 @@ def sig_class(desc):
         return "global-via-module-attribute", mod_globals[0]
     if "global_import@from" in elems:
         return "global-imported-by-name", "global_import@from"
-    fam = tg.family_of(seq)
+    fam = tg.family_of(seq, ctx)
     if fam:
         return fam, "-"
-    if len(seq) >= 3:
-        return "composition", "%d-links" % min(len(seq), 4)
+    if len(seq) + len(ctx) >= 3:
+        return "composition", "%d-elements" % min(len(seq) + len(ctx), 4)
     detail = "|".join(sorted(ctx) + [">".join(seq) or "direct"])
     if ctx:
         return "in-context", detail
@@ -408,8 +408,8 @@ def sweep_specs(avoid_kinds):
     add("family:loop-body-def", {"links": [{"k": "for_body"}, {"k": "assign"}]})
     add("family:loop-body-def/while", {"links": [{"k": "while_body"}, {"k": "assign"}]})
     add("family:loop-body-def/side-effect", {"pre": [{"kind": "func"}], "links": [{"k": "in_for"}, {"k": "global_write"}]})
-    add("family:free-variable-copy", {"links": [{"k": "closure"}, {"k": "assign"}]})
-    add("family:free-variable-copy/closure", {"pre": [{"kind": "func"}], "links": [{"k": "closure"}, {"k": "assign"}]})
+    add("family:free-variable", {"links": [{"k": "closure"}, {"k": "assign"}]})
+    add("family:free-variable/closure", {"pre": [{"kind": "func"}], "links": [{"k": "closure"}, {"k": "assign"}]})
     add("family:try-body-def>loop", {"links": [{"k": "try_body"}, {"k": "for_body"}]})
     return specs
 
